@@ -1,4 +1,5 @@
 """C15 — Neurolucida ASC conversion is faithful to the document (spec/Asc.tla)."""
+from harness import lib
 import io, os, tempfile
 from harness import core, tlc
 
@@ -99,9 +100,9 @@ def big_text(kind, n, label):
 
 def execute(c):
     if c["var"] == "big":
-        t = convert(big_text(c["kind"], c["n"], c["label"]), c["cid"] % 2, c["cid"])
+        t = convert(big_text(c["kind"], c["n"], c["label"]), lib.vid(c) % 2, lib.vid(c))
         return project(t)
-    t = convert(render(c["run"], c["style"]), c["api"], c["cid"])
+    t = convert(render(c["run"], c["style"]), c["api"], lib.vid(c))
     return project(t)
 
 
